@@ -18,6 +18,7 @@ TOL = 1e-10
 # scale of a row is sum|w f B_row| + FLOOR * sum|w f| |d|^deg.  For Cartesian and radial rows the second term is zero-effect
 # (B_row IS the envelope), so those stay strictly row-relative.
 FLOOR = 1e-3
+UNDERFLOW = 1e-290
 RULE = (
     "Post-conditions attached to Grid.moments (inherited by every grid class), utils.generate_orders_horton_order and "
     "utils.dipole_moment_of_molecule fire on EVERY call (also the incidental ones): every returned row and centre is compared with "
@@ -29,7 +30,7 @@ RULE = (
     "(signed, zero)/f, order passed as int/np.int64/np.int32; real-grid = AtomGrid, MolGrid, UniformGrid 2-D/3-D, Tensor1DGrids, "
     "AngularGrid, PeriodicGrid, LocalGrid, OneDGrid rules and transformed radial grids (flat (N,) points) x types x orders; dipole = random molecules (1-5 atoms) on random/Mol/Uniform "
     "grids against sum Z(R-Rcm) - sum w rho (p-Rcm); generator = all types x orders 0..12 x dim; hostile = centre on a grid "
-    "point, points on / near (cone 0.05-0.3 rad) the z axis, narrow cones 1e-6..1e-2 rad (decided against the row envelope only, loss of digits recorded), duplicate centres, huge dynamic range, integer-typed inputs, non-contiguous views. "
+    "point, points on / near (cone 0.1-0.5 rad) the z axis, narrow cones 1e-6..1e-1 rad (decided against the row envelope only, loss of digits recorded), duplicate centres, huge dynamic range, integer-typed inputs, non-contiguous views. "
     "A case is non-trivial when at least one monitored call returned and was compared."
 )
 ASSUMPTIONS = [
@@ -49,7 +50,7 @@ _state = {"ctx": None, "narrow": None}
 # ----------------------------------------------------------------------------- cases
 def cases(tier, seed):
     out = []
-    reps = 1 if tier == "quick" else 8
+    reps = 2 if tier == "quick" else 30
     for k in range(reps):
         for t in TYPES:
             dims = (1, 2, 3) if t in ("cartesian", "radial") else (3,)
@@ -57,7 +58,7 @@ def cases(tier, seed):
                 for L in range(0 if t != "pure-radial" else 1, 9):
                     for m in range(1, 6):
                         out.append(("random-grid", {"type": t, "order": L, "ncent": m, "dim": dim, "k": k}, 1.0 + L * m / 8.0))
-    rreps = 1 if tier == "quick" else 6
+    rreps = 2 if tier == "quick" else 20
     for k in range(rreps):
         for g in REAL_GRIDS:
             for t in TYPES:
@@ -67,11 +68,11 @@ def cases(tier, seed):
                     if t == "pure-radial" and L == 0:
                         continue
                     out.append(("real-grid", {"grid": g, "type": t, "order": L, "k": k}, 4.0 + L))
-    for k in range(24 if tier == "quick" else 300):
+    for k in range(40 if tier == "quick" else 1000):
         out.append(("dipole", {"grid": ["random", "molgrid", "uniform", "atomgrid"][k % 4], "natoms": 1 + (k // 4) % 5, "k": k}, 3.0))
     for t in TYPES:
         out.append(("generator", {"type": t}, 1.0))
-    for k in range(2 if tier == "quick" else 12):
+    for k in range(3 if tier == "quick" else 40):
         for h in HOSTILE:
             for t in TYPES:
                 out.append(("hostile", {"what": h, "type": t, "k": k}, 2.0))
@@ -123,6 +124,7 @@ def _post_moments(res, exc, args, kwargs):
     L = int(L)
     S, A, E, orders = c14ref.ref_moments(t, L, pts, w, f, cent)
     A = A + FLOOR * E  # conditioning floor for rows that (nearly) vanish by symmetry, see FLOOR
+    A = A + np.where(A > 0, UNDERFLOW, 0.0)  # subnormal products carry fewer digits: absolute errors below 1e-300 are not counted
     if a["return_orders"]:
         ok_tuple = isinstance(res, tuple) and len(res) == 2
         ctx.check("returns-values-and-orders", subj, ok_tuple, sig="not-a-pair")
@@ -158,7 +160,7 @@ def _post_moments(res, exc, args, kwargs):
     if vals.size == 0:
         return
     if _state.get("narrow") is not None and t in ("pure", "pure-radial"):
-        # workload announced a cone narrower than 1e-2 rad about the polar axis: the arccos route of the library loses digits
+        # workload announced a cone narrower than 0.1 rad about the polar axis: the arccos route of the library loses digits
         # relative to the row (conditioning, recorded) - decided only against the envelope of the row
         with np.errstate(all="ignore"):
             diff = np.abs(vals.astype(np.longdouble) - S)
@@ -554,12 +556,12 @@ def _hostile(ctx, params):
         pts[:, : dim - 1] = 0.0  # all points on the last axis through the origin
         c[:, : dim - 1] = 0.0
     elif what == "near-axis":
-        # a cone of opening 0.05..0.3 around the last axis as seen from the centre (polar-angle conditioning)
-        eps = 10.0 ** rng.uniform(-1.3, -0.5)
+        # a cone of opening 0.1..0.5 around the last axis as seen from the centre (polar-angle conditioning)
+        eps = 10.0 ** rng.uniform(-1.0, -0.3)
         pts[:, : dim - 1] *= eps
         c[:, : dim - 1] *= eps
     elif what == "narrow-cone":
-        eps = 10.0 ** rng.uniform(-6, -2)
+        eps = 10.0 ** rng.uniform(-6, -1)
         pts[:, : dim - 1] *= eps
         c[:, : dim - 1] *= eps
         _state["narrow"] = eps
